@@ -28,16 +28,20 @@ import (
 type c16ccfg struct {
 	n         int
 	chunk, of int
+	step      int // n=4: every step-th graph of the 4096
 }
 
 func c16cConfigs(tier string) []vmc.Cfg {
 	var out []vmc.Cfg
 	for i := 0; i < 4; i++ {
-		out = append(out, vmc.Cfg{Name: fmt.Sprintf("crawler/n3/%d-of-4", i), Data: c16ccfg{3, i, 4}})
+		out = append(out, vmc.Cfg{Name: fmt.Sprintf("crawler/n3/%d-of-4", i), Data: c16ccfg{3, i, 4, 1}})
 	}
-	chunks := 28
+	chunks, step := 28, 5 // quick: every 5th graph on 4 peers (full behaviour/seed product)
+	if tier == "thorough" {
+		chunks, step = 112, 1 // every graph
+	}
 	for i := 0; i < chunks; i++ {
-		out = append(out, vmc.Cfg{Name: fmt.Sprintf("crawler/n4/%d-of-%d", i, chunks), Data: c16ccfg{4, i, chunks}})
+		out = append(out, vmc.Cfg{Name: fmt.Sprintf("crawler/n4/every%d/%d-of-%d", step, i, chunks), Data: c16ccfg{4, i, chunks, step}})
 	}
 	return out
 }
@@ -61,10 +65,7 @@ func c16cRun(x *vmc.X, cfg vmc.Cfg) {
 	idx := 0
 	quick := x.Tracing() // unused
 	_ = quick
-	stepG := 1
-	if n == 4 {
-		stepG = 5 // every 5th graph of the 4096 (quick and thorough alike keep the full behaviour/seed product)
-	}
+	stepG := max(c.step, 1)
 	for g := 0; g < 1<<edges; g += stepG {
 		total := 1
 		for i := 0; i < n; i++ {
